@@ -30,6 +30,9 @@ impl Sink {
             Ok(_) => final(self)@ == old(self)@ + buf@,
             Err(_) => exists|k: int| #![auto] 0 <= k <= buf@.len() && final(self)@ == old(self)@ + buf@.subrange(0, k) }
     { unimplemented!() }
+    /// writer::Clearable::clear (Vec::clear for the in-memory sink)
+    #[verifier::external_body]
+    pub fn clear(&mut self) ensures final(self)@ == Seq::<u8>::empty() { unimplemented!() }
     #[verifier::external_body]
     pub fn flush(&mut self) -> (r: Result<(), IoError>)
         ensures final(self)@ == old(self)@
